@@ -142,7 +142,34 @@ def _table_integrity(_):
     from mc import e3
     tab = ruleinfo.table()
     before = json.dumps(mrule.rules_dict, sort_keys=True)
+    nm_before = dict(mrule.node_mappings)
+    names_before = list(mrule.node_names())
     n = 0
+    # look-ups with names that are not known elements (prefixed, empty, wrong case, unknown) must leave the map alone
+    for odd in ("eml:eml", "eml:bogus", "x:title", ":", "", "Title", "zzUnknownElement", "title ", None, 7):
+        for fn in (mrule.get_rule_name, mrule.get_rule):
+            try:
+                fn(odd)
+            except Exception:  # noqa
+                pass
+    # many refused whole-tree validations in fail-fast mode, failing at every depth (whatever a refusal leaves behind
+    # in the process must not change what is accepted afterwards)
+    sat0, _r = witness.fixpoint()
+    refused = 0
+    for rounds in range(2):
+        for e in sorted(sat0):
+            sp = witness.minimal(e)
+            if sp is None or witness.size(sp) > 30 or e == "metadata":
+                continue
+            sp = e3._clone(sp)
+            cur = sp
+            while cur[3] and cur[3][-1][0] != "metadata":
+                cur = cur[3][-1]
+            cur[3].append(["zzUnknownElement", None, {}, []])
+            try:
+                validate.tree(witness.build(sp))
+            except Exception:  # noqa
+                refused += 1
     for rn in sorted(tab):
         node, direct = ruleinfo.parent_for(rn)
         ra = ruleinfo.automata(rn)
@@ -194,16 +221,22 @@ def _table_integrity(_):
             except Exception:  # noqa
                 pass
     # after all that use every valid witness must still validate (a table that was changed and changed back would not show)
-    for e in ("allow", "boundingAltitudes", "binaryRasterFormat", "access", "keyword", "descriptor", "dataset", "eml"):
+    for e in sorted(sat0):
         sp = witness.minimal(e)
-        if sp is not None:
+        if sp is not None and witness.size(sp) <= 40:
             try:
                 validate.tree(witness.build(sp))
             except Exception as ex:  # noqa
-                return [problem("rule_table_mutated_by_use", {"what": "rules_dict after validating invalid nodes", "rules": [e]},
-                                expected="valid witness still validates after the table was used", observed=repr(ex))]
+                return [problem("valid_tree_rejected_after_earlier_use", {"what": "rules_dict after validating invalid nodes", "rules": [e]},
+                                expected="valid witness still validates after look-ups, refused validations and introspection in the same process",
+                                observed=repr(ex))]
     after = json.dumps(mrule.rules_dict, sort_keys=True)
     probs = []
+    if dict(mrule.node_mappings) != nm_before or list(mrule.node_names()) != names_before:
+        now = dict(mrule.node_mappings)
+        diff = sorted(repr(k) for k in set(now) ^ set(nm_before)) + sorted(repr(k) for k in set(now) & set(nm_before) if now[k] != nm_before[k])
+        probs.append(problem("element_map_mutated_by_use", {"what": "rules_dict after validating invalid nodes", "rules": diff[:5]},
+                             expected="element-name map unchanged by look-ups and validations", observed=diff[:8]))
     if after != before or mrule.rules_dict != tab:
         changed = [rn for rn in tab if mrule.rules_dict.get(rn) != tab[rn]]
         probs.append(problem("rule_table_mutated_by_use", {"what": "rules_dict after validating invalid nodes", "rules": changed[:5]},
